@@ -559,5 +559,23 @@ def run(ctx: C.Ctx):
 
 
 def replay(data):
+    case = data.get("case") or {}
+    kind = case.get("kind") if isinstance(case, dict) else None
+    if kind == "session":
+        scripts = case["scripts in one process"]
+        alone = C.run_impl("c11_impl.py", {"cases": [["session", [scripts[-1]], False]], "limit": 30})[0][0]
+        together = C.run_impl("c11_impl.py", {"cases": [["session", scripts, False]], "limit": 30})[0]
+        print("last script alone:", {k: alone[k] for k in ("sha", "exc")})
+        print("last script after the others, same process:", {k: together[-1][k] for k in ("sha", "exc")}, "module-level objects changed:", [r["changed"] for r in together])
+        bad = (alone["sha"], alone["exc"]) != (together[-1]["sha"], together[-1]["exc"])
+        print("still failing" if bad else "no longer failing")
+        return 1 if bad else 0
+    if kind and (kind.startswith(("regex-pump", "generic-run")) or kind == "scale") and "text" in case and not case["text"].endswith("...<cut>"):
+        r = O.alone(case["text"], 30)
+        ref = O.alone(Q.PUMP_HEADER + "led.on()\n", 30)
+        print("real parse()+emit():", r, "- a one-line reference script:", ref)
+        bad = r["exc"] == "Timeout" or r["wall"] > max(O.SLOW_ABS, O.SLOW_REL * ref["wall"]) or r["exc"] not in CLEAN or bool(r["audit"])
+        print("still failing" if bad else "no longer failing")
+        return 1 if bad else 0
     from harness.props.c03_replay import replay_c11
     return replay_c11(data)
